@@ -12,7 +12,10 @@
 EXTENDS Arith
 CONSTANTS MaxLen, ExportLen, LeafSet, XShapes, YShapes, ValSets, ReexAll, OpSet,
           InitPairs,     \* {} = every pair of leaf units; otherwise the set of 100*ix+iy to start from
-          ClassPairs     \* TRUE: leaf pairs of one scale class (Reex) plus those listed in InitPairs
+          ClassPairs,    \* TRUE: leaf pairs of one scale class (Reex) plus those listed in InitPairs
+          RegPairs,      \* registries of the two leaves, as 10*rx+ry (1, 2: the two custom registries; 3: unyt's default registry)
+          ReexReg,       \* TRUE: run B writes each leaf in the OTHER custom registry (same symbols, other sizes)
+          DTX, DTY       \* dtypes of the two leaves: "f8" "f4" "c16" "c8" "i8" "i4"
 
 UX(i, e6) == [k \in 1..NA |-> IF k = i THEN e6 ELSE 0]      \* exponent given x6
 U3(i, ei, j, ej, l, el) == [k \in 1..NA |-> IF k = i THEN 6 * ei ELSE IF k = j THEN 6 * ej ELSE IF k = l THEN 6 * el ELSE 0]
@@ -65,30 +68,48 @@ Pow2(d) == d = 1 \/ (d % 2 = 0 /\ Pow2(d \div 2))
 DyadicVals(v) == \A i \in DOMAIN v : Pow2(v[i][2])
 \* re-expression of leaf numbers: by the ratio of the scales; through degrees when a zero point is involved
 Deg == UAtom(12)
-ConvR(v, ua, ub) == LET c == PVRat(VSub(SV(ua), SV(ub))) IN Map1(LAMBDA x : CMul(G(x), c), v)
-Conv(v, ua, ub) == IF ~(HasOffset(ua) \/ HasOffset(ub)) THEN ConvR(v, ua, ub)
-                   ELSE LET d == IF HasOffset(ua) THEN GV(ToDeg(v, ua)) ELSE ConvR(v, ua, Deg) IN
-                        IF ~AllOk(d) THEN d
-                        ELSE IF HasOffset(ub) THEN GV(FromDeg(Strip(d), ub)) ELSE ConvR(Strip(d), Deg, ub)
-Leaf(v, u) == [k |-> "q", u |-> u, v |-> v, rv |-> v, pv |-> v, pf |-> "ok", ex |-> UDyadic(u) /\ DyadicVals(v)]
+ConvS(v, sa, sb) == LET c == PVRat(VSub(sa, sb)) IN Map1(LAMBDA x : CMul(G(x), c), v)
+ConvR(v, ua, ub) == ConvS(v, SV(ua), SV(ub))
+\* (units with a zero point exist in registry 1 only)
+Conv(v, ua, ub, rga, rgb) ==
+  IF ~(HasOffset(ua) \/ HasOffset(ub)) THEN ConvS(v, SVr(rga, ua), SVr(rgb, ub))
+  ELSE LET d == IF HasOffset(ua) THEN GV(ToDeg(v, ua)) ELSE ConvR(v, ua, Deg) IN
+       IF ~AllOk(d) THEN d
+       ELSE IF HasOffset(ub) THEN GV(FromDeg(Strip(d), ub)) ELSE ConvR(Strip(d), Deg, ub)
+IsCx(dt) == dt \in {"c16", "c8"}
+\* imaginary parts of complex leaves (run A); a complex leaf holds real parts then imaginary parts
+XImag(n) == IF n = 1 THEN <<R(2)>> ELSE <<R(2), <<-3, 2>> >>
+YImag(n) == IF n = 1 THEN <<R(-1)>> ELSE <<R(-1), R(5)>>
+Leaf(v, u, rg, dt) == [k |-> "q", u |-> u, sv |-> SVr(rg, u), rg |-> rg, cx |-> IsCx(dt), dt |-> dt, v |-> v, rv |-> v, pv |-> v,
+                       pf |-> "ok", ex |-> UDyadic(u) /\ DyadicVals(v)]
+\* registry 3 is a plain UnitRegistry(): it does not know the custom atoms
+RegOk(rg, u) == rg = 3 => \A i \in 1..NA : (AtomDyadic[i] \/ i = StAtom) => u[i] = 0
+OtherReg(rg) == IF ReexReg THEN (IF rg = 1 THEN 2 ELSE IF rg = 2 THEN 1 ELSE rg) ELSE rg
 
 VARIABLES steps, ra, rb, cfgv
 vars == <<steps, ra, rb, cfgv>>
-Dummy == [k |-> "x", u |-> UOne, v |-> <<ROne>>, rv |-> <<ROne>>, pv |-> <<ROne>>, pf |-> "ok", ex |-> TRUE]
-BareNum(p) == [k |-> "n", u |-> UOne, v |-> <<p>>, rv |-> <<p>>, pv |-> <<p>>, pf |-> "ok", ex |-> TRUE]
+Dummy == [k |-> "x", u |-> UOne, sv |-> SZero, rg |-> 0, cx |-> FALSE, dt |-> "f8", v |-> <<ROne>>, rv |-> <<ROne>>, pv |-> <<ROne>>, pf |-> "ok", ex |-> TRUE]
+BareNum(p) == [k |-> "n", u |-> UOne, sv |-> SZero, rg |-> 0, cx |-> FALSE, dt |-> "f8", v |-> <<p>>, rv |-> <<p>>, pv |-> <<p>>, pf |-> "ok", ex |-> TRUE]
 
 Init ==
-  \E ix \in LeafSet, iy \in LeafSet, xs \in XShapes, ys \in YShapes, s \in ValSets :
+  \E ix \in LeafSet, iy \in LeafSet, xs \in XShapes, ys \in YShapes, s \in ValSets, rp \in RegPairs, dtx \in DTX, dty \in DTY :
   \E jx \in Alt(ix), jy \in Alt(iy) :
     (IF ClassPairs THEN Reex(ix, iy) \/ (100 * ix + iy) \in InitPairs ELSE InitPairs = {} \/ (100 * ix + iy) \in InitPairs) /\
-    LET ux == LeafCat[ix]  uy == LeafCat[iy]  vx == IF xs = "s" THEN <<XVals(ux, s)[1]>> ELSE XVals(ux, s)
-        vy == IF ys = "s" THEN <<YVals(uy, s)[1]>> ELSE YVals(uy, s)
-        wx == Conv(vx, ux, LeafCat[jx])  wy == Conv(vy, uy, LeafCat[jy]) IN
+    LET ux == LeafCat[ix]  uy == LeafCat[iy]  rx == rp \div 10  ry == rp % 10
+        rex == IF xs = "s" THEN <<XVals(ux, s)[1]>> ELSE XVals(ux, s)
+        rey == IF ys = "s" THEN <<YVals(uy, s)[1]>> ELSE YVals(uy, s)
+        vx == IF IsCx(dtx) THEN rex \o XImag(Len(rex)) ELSE rex
+        vy == IF IsCx(dty) THEN rey \o YImag(Len(rey)) ELSE rey
+        wx == Conv(vx, ux, LeafCat[jx], rx, OtherReg(rx))  wy == Conv(vy, uy, LeafCat[jy], ry, OtherReg(ry)) IN
+    \* dtypes: a non-default dtype in either position, or the same one in both
+    /\ (dtx = "f8" \/ dty = "f8" \/ dtx = dty)
+    /\ RegOk(rx, ux) /\ RegOk(ry, uy) /\ RegOk(rx, LeafCat[jx]) /\ RegOk(ry, LeafCat[jy])
+    /\ (rp # 11 \/ dtx # "f8" \/ dty # "f8") => ~(HasOffset(ux) \/ HasOffset(uy) \/ HasOffset(LeafCat[jx]) \/ HasOffset(LeafCat[jy]))
     /\ AllOk(wx) /\ AllOk(wy) /\ Bounded(Strip(wx)) /\ Bounded(Strip(wy))
     /\ steps = <<>>
-    /\ ra = <<Leaf(vx, ux), Leaf(vy, uy)>>
-    /\ rb = <<Leaf(Strip(wx), LeafCat[jx]), Leaf(Strip(wy), LeafCat[jy])>>
-    /\ cfgv = [ix |-> ix, iy |-> iy, jx |-> jx, jy |-> jy, xs |-> xs, ys |-> ys, s |-> s]
+    /\ ra = <<Leaf(vx, ux, rx, dtx), Leaf(vy, uy, ry, dty)>>
+    /\ rb = <<Leaf(Strip(wx), LeafCat[jx], OtherReg(rx), dtx), Leaf(Strip(wy), LeafCat[jy], OtherReg(ry), dty)>>
+    /\ cfgv = [ix |-> ix, iy |-> iy, jx |-> jx, jy |-> jy, xs |-> xs, ys |-> ys, s |-> s, rp |-> rp, dtx |-> dtx, dty |-> dty]
 
 (* ---- catalogue of step kinds: <<op, method, form>> ---- *)
 BinForms(op) ==
@@ -114,6 +135,7 @@ Reg(rs, i, p) == IF i = 0 THEN BareNum(p) ELSE rs[i]
 Shapes(op, meth, A, B, unary) ==
   CASE op = "dot" -> Len(A.v) = 2 /\ Len(B.v) = 2
     [] meth = "call" /\ unary -> TRUE
+    [] meth = "call" /\ CxCase(A, B) -> TRUE       \* InClaim demands equally many complex numbers on both sides
     [] meth = "call" -> (Len(A.v) \in {1, 2} /\ Len(B.v) \in {1, 2}) \/ (Len(A.v) = 4 /\ Len(B.v) = 1)
     [] meth = "outer" -> Len(A.v) = 2 /\ Len(B.v) = 2
     [] meth \in {"reduce", "accumulate"} -> Len(A.v) = 2
@@ -126,15 +148,15 @@ No == [ok |-> FALSE, reg |-> Dummy]
 Run(op, meth, A, B, p, unary) ==
   IF ~(A.k \in {"q", "n"} /\ B.k \in {"q", "n", "x"} /\ (A.k = "q" \/ B.k = "q")) THEN No
   ELSE IF ~Shapes(op, meth, A, B, unary) \/ ~InClaim(op, meth, A, B) THEN No
-  ELSE IF op \in PowUn \cup {"power"} /\ ~UPowOk(A.u, PowOf(op, p)[1], PowOf(op, p)[2]) THEN No
+  ELSE IF op \in PowUn \cup {"power"} /\ ~(UPowOk(A.u, PowOf(op, p)[1], PowOf(op, p)[2]) /\ VDivOk(VScale(A.sv, PowOf(op, p)[1]), PowOf(op, p)[2])) THEN No
   ELSE IF op \in Discontinuous /\ ~((A.ex /\ B.ex) \/ Robust(op, meth, A, B)) THEN No
   ELSE IF RadianRaw(op, A, B) \/ ~SignedZeroFree(op, A, B) THEN No
   ELSE LET r == ImplStep(op, meth, A, B, p) IN
        IF ~r.ok \/ ~Bounded(r.v) THEN No
-       ELSE LET want == RefVals(op, meth, A, B, p, r.u) IN
+       ELSE LET want == RefValsC(op, meth, A, B, p, r) IN
             IF ~AllOk(want) THEN No
-            ELSE LET pure == RefVals(op, meth, [A EXCEPT !.v = A.pv], [B EXCEPT !.v = B.pv], p, r.u) IN
-                 [ok |-> TRUE, reg |-> [k |-> r.k, u |-> r.u, v |-> r.v, rv |-> Strip(want), ex |-> IsExact(op, meth, A, B, r),
+            ELSE LET pure == RefValsC(op, meth, [A EXCEPT !.v = A.pv], [B EXCEPT !.v = B.pv], p, r) IN
+                 [ok |-> TRUE, reg |-> [k |-> r.k, u |-> r.u, sv |-> r.sv, rg |-> r.rg, cx |-> r.cx, dt |-> "f8", v |-> r.v, rv |-> Strip(want), ex |-> IsExact(op, meth, A, B, r),
                                         \* pv: the reference chain from the leaves (never follows a wrong step of the transcription)
                                         pv |-> IF AllOk(pure) /\ Bounded(Strip(pure)) THEN Strip(pure) ELSE Strip(want),
                                         pf |-> PVerdict(op, meth, A, B, p, r)]]
@@ -165,7 +187,7 @@ Next == Len(steps) < MaxLen /\ (Binary \/ Unary \/ Power \/ Scalar \/ Reduce \/ 
 Spec == Init /\ [][Next]_vars
 
 (* ---- export ---- *)
-RegOut(r) == [k |-> r.k, u |-> r.u, v |-> r.v, rv |-> r.rv, pv |-> r.pv, ex |-> r.ex]
+RegOut(r) == [k |-> r.k, u |-> r.u, sv |-> r.sv, rg |-> r.rg, cx |-> r.cx, dt |-> r.dt, v |-> r.v, rv |-> r.rv, pv |-> r.pv, ex |-> r.ex]
 ModelFails(rs) == {[op |-> steps[i].op, verdict |-> rs[i + 2].pf] : i \in {j \in 1..Len(steps) : rs[j + 2].pf # "ok"}}
 Export ==
   Len(steps) = ExportLen =>
@@ -173,5 +195,5 @@ Export ==
                    A |-> [i \in 1..Len(ra) |-> RegOut(ra[i])], B |-> [i \in 1..Len(rb) |-> RegOut(rb[i])],
                    mf |-> ModelFails(ra) \cup ModelFails(rb)]))
 \* the atom table travels with the cases (single source for the harness)
-ASSUME PrintT(ToJson([tag |-> "TABLE", names |-> AtomName, grp |-> AtomGrp, pv |-> AtomPV, cat |-> LeafCat]))
+ASSUME PrintT(ToJson([tag |-> "TABLE", names |-> AtomName, grp |-> AtomGrp, pv |-> AtomPV, cat |-> LeafCat, reg2 |-> Reg2Atoms]))
 =============================================================================
